@@ -449,6 +449,7 @@ class Repo(object):
                 objflat.inline_worker(tree, 'to_jigg_xml', lambda c_, cls_={d_.name for d_ in tree.body if isinstance(d_, ast.ClassDef)}: isinstance(c_.func, ast.Name) and c_.func.id in cls_)
                 objflat.inline_worker(tree, 'to_jigg_xml', lambda c_: ast.unparse(c_.func) in ('etree.SubElement', 'etree.Element', 'SubElement', 'Element') and c_.args
                                       and isinstance(c_.args[-1], ast.Constant) and c_.args[-1].value == 'token')
+            objflat.list_walks_to_generators(tree)
             objflat.inline_skeletons(tree)
             objflat.nest_workers(tree)
             objflat._link(tree)
